@@ -470,7 +470,14 @@ def all_tags_examined(ctx, s):
                         if f[0] == "variant" and f[2] == 0 and f[1] == V:
                             ends.append(node)
     oks = [n for n, k, v in s.return_kinds(fn) if k == "ok"]
-    reach = s.reach(fn, [an.cfg.entry], avoid=ends)
+    # a request found to carry no tags at all (is_empty / count / len of its tags tested) has no walk to finish
+    empties = s.edges_where(fn, lambda f: (f[0] == "true" and isinstance(f[1], tuple) and f[1][0] == "call" and
+                                           f[1][1].rsplit("::", 1)[-1] == "is_empty" and
+                                           contains_value(f[1], lambda y: y[0] == "call" and y[1].endswith("::tags"))) or
+                                (f[0] == "eqc" and f[2] == 0 and isinstance(f[1], tuple) and
+                                 contains_value(f[1], lambda y: y[0] == "call" and y[1].rsplit("::", 1)[-1] in ("count", "len")) and
+                                 contains_value(f[1], lambda y: y[0] == "call" and y[1].endswith("::tags"))))
+    reach = s.reach(fn, [an.cfg.entry], avoid=ends + empties)
     ok = bool(ends) and bool(oks) and not any(n in reach for n in oks)
     s.add("S-MUSTPASS", fn, "ok-only-after-all-tags", "handle_deletion_event", fn.sp, PROVED if ok else VIOLATION,
           "Ok is returned only after the walk over all tags of the request ended" if ok else
